@@ -2361,11 +2361,8 @@ func hookBlockInAssociationSave(c Case) bool {
 	if !c.Op.Audit || (c.Op.AuditVia != "batches" && c.Op.AuditVia != "transaction") {
 		return false
 	}
-	switch c.Op.Kind {
-	case kCreate, kCreateSlice, kCreateBatches, kSave, kSaveSlice, kUpdatesFull, kUpdatesMap:
-	default:
-		return false
-	}
+	// every kind that is handed a record graph saves its associations
+	// (create, save, updates, Model(graph).Update); delete kinds carry no graph
 	for _, o := range c.Op.Owners {
 		for _, tg := range o.Tags {
 			if tg.BackRef {
